@@ -31,7 +31,7 @@ def impl_update(env: bytes, uci: int, dfu: int, caches: int, d: str):
     for p in (so, do):
         common.make_stale(p)
     try:
-        cmd_image.main(image="update", input_file=f, storage_output_file=so, dfu_partition_output_file=do,
+        common.call_main(cmd_image.main, d, image="update", input_file=f, storage_output_file=so, dfu_partition_output_file=do,
                        update_candidate_info_address=uci, dfu_partition_address=dfu, dfu_max_caches=caches)
         return {"ok": [open(so).read(), open(do).read()]}
     except BaseException as e:  # noqa  (intelhex / struct raise assorted types)
